@@ -110,6 +110,9 @@ func Load(repo, goos, goarch string) (*Program, error) {
 	}
 	sort.Slice(p.modFns, func(i, j int) bool { return p.FnKey(p.modFns[i]) < p.FnKey(p.modFns[j]) })
 	p.computeRoots()
+	inlinable = func(fn *ssa.Function) bool {
+		return fn.Parent() == nil && fn.Synthetic == "" && p.InModule(fn) && !knownFuncs[p.FnKey(fn)]
+	}
 	return p, nil
 }
 
